@@ -101,6 +101,125 @@ CLAIMED = {
         'coordinates as exact rationals, jax_healpy.ang2pix not modelled (healpy clause partial), the harness, Coq kernel.',
         'DESIGN.md section 4, C17',
     ),
+    'C02': (
+        'Coq proof that the transcribed dunders (@ + - unary- k* /k, with the overrides of Composition, Addition, Identity, '
+        'Homothety and lazy-inverse operators and every construction shortcut) denote the product / sum / difference / '
+        'negation / scalar multiples of their operands for operands of any class and any grouping, that results are '
+        'well-formed with the implied structures, and that mismatching operands are rejected with ValueError; '
+        'differential correspondence of the real dunders on every compatible operand pair of an 85-operand alphabet',
+        'matmul_sound, matmul_structs, matmul_mismatch_rejected, matmul_assoc, add_sound (flattening incl.), add_structs, '
+        'add/sub_mismatch_rejected, smul/sdiv/neg/sub_sound, smul_structs: all operands, all inputs (model level), closed '
+        'under the global context. Tie: C-tie comparing outcome kind, result skeleton (classes, operand identities, merged '
+        'scalars), structures and dense matrix of ~3700 (quick) real expressions with the model; wfo (constructor '
+        'guarantees) evaluated on every encoded real operand; oracle NumPy arithmetic on operand matrices.',
+        'Trusts leaf_facts for opaque leaves (homogeneity, lazy inverse inverts), CPython operator protocol as folded into '
+        'the model, harness-assigned identities, float32 vs exact rationals on dyadic inputs; NumPy non-scalar array '
+        'factors are outside the modelled domain (boundary note in DESIGN).',
+        'DESIGN.md section 4, C02',
+    ),
+    'C08': (
+        'Coq proof over an executable model of every tagged operator class that each `true` of the REGENERATED class x tag '
+        'table (7 lineax predicates + transpose-returns-self, inverse-is-transpose, out_structure-is-in_structure; '
+        'decorator effects read by ast) implies the semantic matrix property for all legal parameters - a finite decision '
+        'over classes x tags in which every true entry points to a proved lemma (fails closed on unknown class/tag); '
+        'T-tie translator tools/translate/tags.py; differential harness on real operators',
+        'tags_truthful, self_transpose_ok, inv_is_T_ok, square_ok, never_overtagged, decorators_justified over any '
+        'commutative ring; T-tie theorems every_declared_tag_has_a_proof, decorator_effects_are_implied, '
+        'symmetric_returns_self compiled against the regenerated table on every run. C-tie: dense matrices, op.T is op, op.I '
+        'vs op.T, structures, lineax predicates of every tagged class over its parameter scope vs the model.',
+        'Guards: constructor checks; Toeplitz/QURotation parameters not wider than the input (wider ones are a reported '
+        'boundary, as in C05); parameter layout abstracted (C11/C09/C15); translator bytecode/ast recognition; exact ring '
+        'for floats; harness.',
+        'DESIGN.md section 4, C08',
+    ),
+    'C11': (
+        'Coq proof over an executable model of diagonal.py (reusing the C13 moveaxis / n-d index model): element formula of '
+        'the broadcast product for all ranks, shapes and axis specifications, exact accept/reject characterisation of both '
+        'constructors, strict <=> shape-preserving, as_matrix = generic columns, pseudo-inverse laws; differential '
+        'correspondence on ~13000 constructor calls / applications with an independent NumPy element-formula oracle',
+        'diag_elementwise(_leaf), scalar_axis_forms, broadcast_dims_minimal, ctor_accepts_legal (iff), ctor_rejects, '
+        'strict_preserves_shape (iff), mixed_rank_leaves, diag_as_matrix, pinv_is_pseudo_inverse: all closed under the '
+        'global context, no clause partial. Tie: C-tie enumerating rank<=2 leaves completely (+ sampled rank 3, thorough: '
+        'complete), all scalar axes in [-4,3], all distinct axis tuples, both classes, pytrees of mixed rank, malformed '
+        'stream; prime-valued inputs.',
+        'Trusts Gallina specs of moveaxis/reshape/broadcasting/diag/where (validated on the enumerated scope), exact Z/Q for '
+        'float32 on exactly representable inputs; wrong-length axis tuples, None and Python-scalar values are outside the '
+        'theorems (first still covered by correspondence).',
+        'DESIGN.md section 4, C11',
+    ),
+    'C12': (
+        'Coq proof over an executable model of IndexOperator / PackOperator and both index rules (reusing '
+        'Algebra.indexed_axes / coverage_of / norm_index, i.e. the very definitions the C01 model of TransposeIndexRule '
+        'uses): gather/scatter adjointness, P P^T = I iff no duplicate, P^T P = multiplicities for arbitrary selections; '
+        'slice/mask/single-array semantics computed with injectivity proved for every start/stop/step; the '
+        'unique/counts/scatter multiplicity pipeline proved correct; differential correspondence with NumPy oracle',
+        'index_T_is_scatter_add, PPt_identity_iff, PtP_multiplicity, slice_selects_distinct_in_range, '
+        'unique_inference_sound, multiplicity_code_correct (+ raw-value refuted witness = pre-fix defect), PtP_rule_sound, '
+        'indexed_axes_spec, reduce_identity_only_if_noop, pack_is_index_by_mask, pack_unpack_rule_sound, ctor theorems: 32 '
+        'theorems closed under the global context. Tie: C-tie on ~2100 (quick) index expressions x shapes incl. reductions.',
+        'Partial: tuples with two or more array entries take their gather from the implementation (uniqueness tested, not '
+        'proved, for them). Trusts NumPy/JAX indexing spec, linear_transpose of a gather = scatter-add, jnp.unique/.at[].add '
+        'specs, harness. Model follows fixes 0c57282 and 091cfac.',
+        'DESIGN.md section 4, C12',
+    ),
+    'C15': (
+        'Coq proof over an abstract commutative ring and abstract angle structure (addition formulas as Section hypotheses, '
+        'discharged by an exact rational unit-vector instance and by Coq.Reals cos/sin): each mv equals its Mueller matrix '
+        'for every Stokes kind, position and broadcastable angle array; the four rotation products with exactly the angle '
+        'expressions QURotationRule computes; R.HWP = HWP.R^T, P.HWP = P; factories = explicit products; reduce of any chain '
+        'over {R, R^T, HWP, P} preserves the map; stage 2 discharges the polarimetry leaf_facts assumed by C01 for the '
+        'executable leaf semantics; differential correspondence + NumPy Mueller oracle',
+        '48 obligations, all closed under the global context (the Coq.Reals instance file depends on the standard real '
+        'axioms sig_forall_dec, sig_not_dec, functional_extensionality_dep). Tie: all chains of length <= 4 x 4 Stokes kinds '
+        'x broadcast angle arrays (k.pi/4 exact; Pythagorean generic angles at 1e-12 under x64), factories, same-object '
+        'patterns.',
+        'Floating-point trig modelled exactly; jnp broadcasting specified in Gallina with its laws proved; scan termination '
+        'left to C07; harness-assigned identities.',
+        'DESIGN.md section 4, C15',
+    ),
+    'C16': (
+        'Coq proof over a ring-generic model of the projection / acquisition chain: the nine Euler-matrix entries and the '
+        'einsum subscripts are RE-TRANSLATED from projections.py on every run (T-tie) and proved equal to Rz.Ry.Rz (by '
+        'ring, all angles), orthogonal; projection and acquisition formulas, equality before/after reduction, P^T P = '
+        'hit-count diagonal (built and reduced, incl. the unique/scatter pipeline) for every Stokes kind, pixel table and '
+        'angle; C-tie on the real create_projection_operator / create_acquisition; pixel lookup tested numerically only',
+        'euler_is_ZYZ, euler_orthogonal, einsum_is_matvec, projection_formula, acquisition_formula, '
+        'acquisition_reduce_equal, PtP_hits, PtP_reduce_equal, multiplicity_is_hit_count: 17 obligations closed under the '
+        'global context. Tie: T-tie Gen/EulerMatrix.v; C-tie feeding the model the implementation\'s own pixel table '
+        '(nside 1-4, 4 Stokes kinds, 1-3 detectors, several directions per detector).',
+        'Partial: that pix[d,t] is the HEALPix pixel containing the rotated direction (vec2dir float trig + '
+        'jax_healpy.ang2pix) is cross-checked against NumPy Rz.Ry.Rz + healpy on 28k (quick) / 222k directions, not proved. '
+        'Reduced skeletons checked per case through the C01/C07 reduce model. Model follows fix b0caed7.',
+        'DESIGN.md section 4, C16',
+    ),
+    'C18': (
+        'Coq model (a small Python-subset interpreter: call binding, constructor bodies) of the hand-registered pytree '
+        'nodes, REGENERATED from landscapes.py by a fail-closed ast/inspect translator on every run, with the round trip '
+        'unflatten(flatten obj) = obj proved for every registered class and all constructor arguments; the static/dynamic '
+        'field partition of every operator class regenerated and proved consistent with trace-safe use; JIT / XLA / '
+        'equinox behaviour tested on every operator class through four execution routes',
+        'roundtrip_ok, registered_keys_accepted, unaccepted_key_always_fails (D4 stated generally), '
+        'unflatten_call_always_binds, partition_sound, no_shape_level_field_traced, mask_fields_excluded, table_unchanged: '
+        '17 obligations closed under the global context. Tie: T-tie Gen/PytreeReg.v + Gen/FieldTable.v; C-tie on the '
+        'registered nodes; 223 instance runs x 3 dtype modes comparing eager / jit closure / filter_jit / round trip.',
+        'Partial: that tracing, jit/XLA and equinox generic flattening preserve values is tested (27 concrete operator '
+        'classes, composites, landscapes, both x64 modes), not proved. Trusts the translator, the interpreter\'s Python '
+        'semantics on its value domain, the hand-written use classification of fields. Model follows fix 00febbf.',
+        'DESIGN.md section 4, C18',
+    ),
+    'C20': (
+        'Coq proof over an executable model of the Stokes containers and tree helpers, polymorphic in leaf type and leaf '
+        'operation (so operand order is observable): component-wise dispatch of direct and reflected dunders, '
+        'independence, error propagation, kind rejection, factories, from_stokes/from_iquv, the dtype promotion table as a '
+        'least upper bound, structure preservation of the *_like / as_structure / as_promoted_dtype helpers, dot as the '
+        'Hermitian sum over a ring with involution; differential correspondence in both x64 modes with exact oracle',
+        '49 obligations closed under the global context. Tie: C-tie on ~5900 (quick) cases: kinds x shapes x dtypes x '
+        'operand forms x all dunders in both orders with distinct prime components; jnp.result_type compared on all 12x12 '
+        'pairs and 12^3 triples in both x64 modes (finite: exhaustive).',
+        'JAX leaf primitives are Gallina specifications checked against JAX by the harness; exact rationals for floats; '
+        'Python operator protocol and NumPy scalar unwrapping trusted. Model follows fix b6f6a0c.',
+        'DESIGN.md section 4, C20',
+    ),
 }
 
 PENDING_REASON = 'check not built yet in this session (work in progress; see DESIGN.md section 8 for the order of work)'
